@@ -29,6 +29,7 @@ func init() {
 			{Name: "directed-lost-wakeup", N: core.TierN(60, 600), Batch: 6, Run: c04Directed},
 			{Name: "fixed-max", N: core.TierN(100, 1000), Batch: 10, Run: c04Fixed},
 			{Name: "window-commit-with-blocked-getters", N: core.TierN(60, 600), Batch: 6, Run: c04Getters},
+			{Name: "fixed-trim-then-commit", N: core.TierN(100, 1000), Batch: 25, Run: c04TrimThenCommit},
 			{Name: "fixed-consumed-prefix", N: core.TierN(60, 600), Batch: 10, Run: c04FixedPrefix},
 		},
 	})
@@ -473,6 +474,93 @@ func c04Getters(c *core.Ctx) {
 	}
 	c.Op("final_change", 1)
 	c.Sig("getters", cooldown, g, n, inWindow)
+	if c.Index < 1 {
+		c.SetHistory(desc)
+	}
+}
+
+// c04TrimThenCommit: under FixedBufferCleaner consumers hold uncommitted reads across a forced trim (so the buffer's
+// offset overtakes their committed position), then every consumer that can still read reads everything and commits
+// (the others close): with no further activity the buffer must drain to the slowest open consumer's backlog (0).
+func c04TrimThenCommit(c *core.Ctx) {
+	cooldown := core.Pick(c.Rng, 0, 0, 500*time.Microsecond, 3*time.Millisecond)
+	max := 2 + c.Rng.IntN(5)
+	cs := cleanerSpec{Fixed: true, Max: max, Target: 1 + c.Rng.IntN(max)}
+	b := newBuffer(cs, cooldown, nil)
+	defer b.Close()
+	p := c.NewPerturb(core.PerturbOpts{P: core.Pick(c.Rng, 0, 0.1)})
+	defer p.Stop()
+	k := 1 + c.Rng.IntN(3)
+	conss := make([]bigbuff.Consumer, k)
+	for i := range conss {
+		conss[i], _ = b.NewConsumer()
+	}
+	defer func() {
+		for _, cons := range conss {
+			cons.Rollback()
+		}
+	}()
+	total := 0
+	put := func(n int) {
+		vals := make([]interface{}, n)
+		for i := range vals {
+			vals[i] = total
+			total++
+		}
+		b.Put(context.Background(), vals...)
+	}
+	put(max)
+	reads := make([]int, k)
+	for i, cons := range conss {
+		reads[i] = c.Rng.IntN(max + 1)
+		for j := 0; j < reads[i]; j++ {
+			cons.Get(context.Background())
+		}
+		if c.Rng.IntN(4) == 0 && reads[i] > 0 {
+			cons.Commit()
+		}
+	}
+	put(1 + c.Rng.IntN(3)) // crosses max: forced trim while reads are uncommitted
+	if c.Rng.IntN(2) == 0 {
+		time.Sleep(cooldown + 200*time.Microsecond)
+	}
+	open := 0
+	for i, cons := range conss {
+		lagging := false
+		for {
+			ctx, cancel := context.WithTimeout(context.Background(), 2*time.Millisecond)
+			_, err := cons.Get(ctx)
+			cancel()
+			if err != nil {
+				if _, past := errClass(err); past {
+					lagging = true
+				}
+				break
+			}
+		}
+		if lagging {
+			cons.Rollback()
+			cons.Close()
+			continue
+		}
+		if d, ok := b.Diff(cons); !ok || d != 0 {
+			// could not read everything (should not happen): leave it out
+			c.Inconclusive("consumer %d did not reach the end (Diff=%d)", i, d)
+			return
+		}
+		cons.Commit() // may be "nothing to commit" if it had nothing pending
+		open++
+	}
+	desc := fmt.Sprintf("%s cooldown=%s consumers=%d (still open: %d) reads-before-trim=%v put=%d", cs, cooldown, k, open, reads, total)
+	if open == 0 {
+		c.Op("final_change", 1)
+		c.Sig("trimcommit-none-open", cs.String())
+		return
+	}
+	awaitReclaim(c, b, 0, cooldown, desc)
+	c.Op("final_change", 1)
+	c.Nontrivial()
+	c.Sig("trimcommit", cs.String(), cooldown, k, open, fmt.Sprint(reads))
 	if c.Index < 1 {
 		c.SetHistory(desc)
 	}
